@@ -31,8 +31,9 @@ pub struct C03 {
     ctx: Lazy<Context>,
 }
 
-const NFORMS: usize = 16;
+const NFORMS: usize = 18;
 const KILO: i64 = 1000;
+const POWS: [i64; 4] = [2, 14, -14, 30];
 
 fn rat_text(r: &Rat) -> String {
     if r.is_integer() {
@@ -78,6 +79,9 @@ fn form(f: usize, t: &U, u: &U) -> (String, Rat, Dims) {
         // zero-valued targets: refused for what they are (not conformable) before the division is tried
         14 => (format!("0 {}", tn), Rat::zero(), t.dims.clone()),
         15 => (format!("({} - {})", tn, tn), Rat::zero(), t.dims.clone()),
+        // constants far outside the f64 range: exact arithmetic has no underflow or overflow
+        16 => (format!("1e-400 {}", tn), pow_rat(&rat(10, 1), -400).unwrap() * tv, t.dims.clone()),
+        17 => (format!("1e400 {}", tn), pow_rat(&rat(10, 1), 400).unwrap() * tv, t.dims.clone()),
         _ => (
             format!("(2 {})^2", tn),
             rat(4, 1) * &tv * &tv,
@@ -133,7 +137,7 @@ impl C03 {
         if tier == "thorough" {
             vals.push(("1e-30".to_string(), pow_rat(&rat(10, 1), -30).unwrap()));
             vals.push(("1e40".to_string(), pow_rat(&rat(10, 1), 40).unwrap()));
-            src_forms = vec![0, 4, 5, 6, 7, 13];
+            src_forms = vec![0, 4, 5, 6, 7, 13, 16, 17];
         }
         let mut fams = Fams::default();
         fams.add("conformable-pairs", vec![pairs.len() as u64]);
@@ -144,6 +148,7 @@ impl C03 {
             "compound",
             vec![vals.len() as u64, src_forms.len() as u64, c, c, NFORMS as u64, c, c],
         );
+        fams.add("powers of prefixed targets: 1 t^p -> (prefix t)^p", vec![c, prefixes.len() as u64, POWS.len() as u64]);
         C03 { fams, units, pairs, reps, core300, prefixes, core12, vals, src_forms, dump, ctx: Lazy::new() }
     }
 }
@@ -231,6 +236,25 @@ impl C03 {
                     return Plan::Skip("no exact reading");
                 }
                 Plan::OneOf { q, wants }
+            }
+            4 => {
+                // (yocto t)^14 is 1e-336 t^14: beyond f64, exact for rationals
+                let t = &self.core12[d[0] as usize];
+                let name = format!("{}{}", self.prefixes[d[1] as usize], t.name);
+                let p = POWS[d[2] as usize];
+                let readings: Vec<Reading> = self.dump.resolve(&name);
+                if readings.len() != 1 || readings[0].dims != t.dims || !regdump::addressable(&name) {
+                    return Plan::Skip("prefixed name has no unique reading of this dimensionality");
+                }
+                let (tv, pv) = match (&t.value, &readings[0].value) {
+                    (Some(a), Some(b)) if !b.is_zero() => (a.clone(), b.clone()),
+                    _ => return Plan::Skip("float-valued unit"),
+                };
+                let q = format!("1 {}^{} -> {}^{}", regdump::q(&t.name), p, regdump::q(&name), p);
+                match pow_rat(&(tv / pv), p) {
+                    Some(x) => Plan::Exact { q, want: Some(x), fwant: 0.0, back: None },
+                    None => Plan::Skip("power not computable"),
+                }
             }
             _ => {
                 let (vt, v) = &self.vals[d[0] as usize];
@@ -327,7 +351,7 @@ impl Space for C03 {
         Meta {
             id: "C03",
             level: "exploration",
-            rule: "(a) every ordered pair (u,t) of registry units/base units with equal dimensionality: `1 u -> t` must be a Conversion with raw*value(t)==value(u) exactly, and `x t -> u` must give 1; (b) every unit x one representative of every other dimensionality: Conformance error whose suggestions carry the reciprocal hint iff the product is dimensionless and otherwise name a factor that (parsed back through the quantity table) makes the sides conformable; (c) prefix x plural spellings of a unit core as targets, judged by an independent name resolver; (d) compound sources x 16 compound target shapes (constants, 1|3, ^2, ^-1, ^1, products, quotients, kilo-prefix, inline `foo = 3 t`, sign, and zero-valued targets `0 t`, `(t - t)`: Conformance error when not conformable, some error when conformable) over a 12-unit core x rational values. Non-trivial = judged (not skipped); distinct by query text".into(),
+            rule: "(a) every ordered pair (u,t) of registry units/base units with equal dimensionality: `1 u -> t` must be a Conversion with raw*value(t)==value(u) exactly, and `x t -> u` must give 1; (b) every unit x one representative of every other dimensionality: Conformance error whose suggestions carry the reciprocal hint iff the product is dimensionless and otherwise name a factor that (parsed back through the quantity table) makes the sides conformable; (c) prefix x plural spellings of a unit core as targets, judged by an independent name resolver; (d) compound sources x 16 compound target shapes (constants, 1|3, ^2, ^-1, ^1, products, quotients, kilo-prefix, inline `foo = 3 t`, sign, zero-valued targets `0 t`, `(t - t)`: Conformance error when not conformable, some error when conformable; constants 1e-400 / 1e400, far outside the f64 range, in sources and targets) over a 12-unit core x rational values. (e) `1 t^p -> (prefix t)^p` for 12 units x every prefix x p in {2, 14, -14, 30} (values down to 1e-720). Non-trivial = judged (not skipped); distinct by query text".into(),
             assumptions: vec![
                 "unit values come from the registry dump (C08 validates it)".into(),
                 "the single float-valued unit (semitone) is compared to 1e-12 relative".into(),
